@@ -7,6 +7,7 @@ CONSTANTS
   MaxDrop = 2
   MaxExp = 2
   KnownPad = TRUE
+  NetServe = FALSE
   MinChaos = 10
 INVARIANTS ConvergedWhenDone FetcherSane Emit
 CHECK_DEADLOCK FALSE
